@@ -25,7 +25,7 @@
     (C14_cancel_reaches_done); that the Go scheduler IS fair is not. *)
 From Coq Require Import Arith Bool List String Ascii ZArith.
 From CanVerif Require Import Runner.Lts Runner.RunModel Runner.LockDiscipline Runner.Protocol Runner.RunLts Runner.RunProofs.
-From CanVerif Require Import Dbc.Ast Runner.Program Runner.ProgramProofs Runner.ProgramLts Runner.ProgramLtsProofs.
+From CanVerif Require Import Dbc.Ast Runner.Program Runner.ProgramProofs Runner.ProgramLts Runner.ProgramLtsProofs Runner.ProgramLoop Runner.ProgramLoopProofs.
 Import ListNotations.
 
 (** I4 exactly-once: accepted + ticks_taken - transmitted - aborted is 1 inside transmit, else 0 *)
@@ -485,3 +485,41 @@ Example C14_transmit_refinement_nonvacuous :
     = Some (Some (Transmit 2 9 false), mkL 12 false 0) /\
   tx_abs (mkL 12 false 0) = TFail /\ tx_abs (mkL 16 true 0) = SEL.
 Proof. vm_compute. repeat split. Qed.
+
+(** REFINEMENT of the whole transmitter (Runner/ProgramLoop.v): the five reference programs linked through their `callfn`
+    nodes.  [tnext dc dt t x c o b arm a] = the step of thread t from configuration c = (function + return address, pc, ok,
+    hook phase, local isCyclicTransmissionEnabled, local "ticker != nil"); dc / dt = SendType == cyclic / CycleTime > 0;
+    arm = the select case taken (0 done, 1 wake-up, 2 event offered by application a, 3 tick).  [sim dc dt c x]: the LTS
+    record x has pc [tabs c] (T0, S1..S4, T1, SEL, X1..X9, TFail, TDone), t_armed = the program's "ticker != nil",
+    t_cyclic = dc && dt, t_gotwake = WakeUpChan() already fetched, and t_last = the flag value the program branches on.
+    [enabled]: the environment's side of an event (mutex free for Lock, context cancelled for Done true, token / tick /
+    offer present for the select cases).  Every silent step keeps [sim]; every visible step is a [step_fn] transition of t
+    into a record that is again in [sim] - in particular the single [Apply] of the LTS (ticker armed iff flag && cyclic &&
+    cycle time > 0 && not yet armed; disarmed iff not flag && armed) is exactly what the paths through enable / disable do,
+    the done arm returns nil only when cancelled, wake-up re-reads the flag under the lock, the event and tick arms run the
+    transmit closure once and an error ends the thread. *)
+Theorem C14_transmitter_loop_refines_lts : forall dc dt t x c o b arm a e c' s,
+  tnext dc dt t x c o b arm a = Some (e, c') -> th s t = TTx x -> sim dc dt c x ->
+  match e with
+  | None => sim dc dt c' x
+  | Some ev => enabled s t x ev ->
+               exists s' x', step_fn s ev = Some s' /\ th s' t = TTx x' /\ sim dc dt c' x'
+  end.
+Proof. exact transmitter_loop_refines. Qed.
+Print Assumptions C14_transmitter_loop_refines_lts.
+
+Example C14_transmitter_loop_nonvacuous :
+  sim true true (mkT FMain 0 true 0 false false) (init_tx true) /\
+  tnext true true 2 (init_tx true) (mkT FMain 10 true 0 false false) true false 0 0
+    = Some (Some (TxInit 2), mkT FMain 11 true 0 false false) /\
+  tnext true true 2 (init_tx true) (mkT FMain 11 true 0 false false) true false 0 0
+    = Some (None, mkT (FSet true) 0 true 0 false false) /\
+  tnext true true 2 (init_tx true) (mkT (FEn true) 4 true 0 true false) true false 0 0
+    = Some (Some (Apply 2), mkT (FEn true) 5 true 0 true true) /\
+  tnext true false 2 (init_tx false) (mkT (FEn true) 2 true 0 true false) true false 0 0
+    = Some (None, mkT (FEn true) 3 true 0 true false) /\
+  tnext true true 2 (init_tx true) (mkT FMain 13 true 0 false false) true false 2 7
+    = Some (Some (Accept 2 7), mkT FMain 16 true 0 false false) /\
+  tnext true true 2 (init_tx true) (mkT (FTx false) 15 true 0 false false) true false 0 0
+    = Some (None, mkT FMain 17 true 0 false false).
+Proof. vm_compute. repeat split; reflexivity. Qed.
